@@ -13,7 +13,7 @@ _POW = "_RNvMs7_NtCs8xvirJzNMvV_4core3numy15overflowing_powCs36Lg0Iv5OGD_8dust_d
 #  * the `registered_notifications.drain(..)` loop of DcpsStatusCondition::add_communication_state: bound 1 = "the loop body
 #    must be unreachable" (no WaitSet is attached in these harnesses); checked by the unwinding assertion.
 _ACS = "_RNvMs_NtNtCs36Lg0Iv5OGD_8dust_dds4dcps16status_conditionNtB4_19DcpsStatusCondition23add_communication_state.0"
-_CBMC = ["--unwindset", "memcmp.0:17,%s:15,%s.0:7,%s.1:7,%s:1" % (_FROM_ITER, _POW, _POW, _ACS)]
+_CBMC = ["--unwindset", "memcmp.0:17,%s:15,%s.0:7,%s.1:7" % (_FROM_ITER, _POW, _POW)]
 
 for _pid in ("C30", "C29", "C33", "C27", "C28"):
     prop(
